@@ -21,7 +21,7 @@ TIERS = {
     "quick": {"targets": 320, "runs": 400, "ref_seeds": [0, 1, 20260924, 4242], "fresh_checks": 6, "redo": 8, "min_budget": 24,
               "chunk": 12, "budget_s": 420, "torchlib": False},
     "thorough": {"targets": 2600, "runs": 12000, "ref_seeds": [0, 1, 2, 3, 7, 1234567, 20260924, 4294967295], "fresh_checks": 40,
-                 "redo": 250, "min_budget": 60, "chunk": 25, "budget_s": 3300, "torchlib": True, "per_family": 10, "external_families": 23},
+                 "redo": 250, "min_budget": 60, "chunk": 25, "budget_s": 3300, "torchlib": True, "per_family": 10, "external_families": 23, "composed_models": 60},
 }
 REF_PRE_SKEW = [0, 3, 5, 1, 2, 7, 11, 13]   # pre-import heap skew of the i-th reference environment
 PRE_SKEWS = [0, 0, 1, 2, 3, 5, 7, 11, 13, 101]
@@ -118,6 +118,21 @@ def gen_targets(seed: int, tier: dict, pools) -> list[dict]:
         n_mem = max(per_fam, genmodels.members_per_batch(gf, per_fam, cap=tier.get("variant_cap", 9)))
         gen_slots += [gf] * n_mem
         gen_member += list(range(n_mem))
+    # composed models: 2-3 members of opset-20 families side by side in one graph (several matches of one rule, or of
+    # different rules, in one traversal; several outputs; duplicated initializers)
+    compose_fams = [f for f in gen_fams if f not in ("rms_norm", "layer_norm", "gelu", "fold_chain")]
+    for i in range(tier.get("composed_models", 8)):
+        r = rng.sub("compose", i)
+        same = r.chance(0.5)
+        f1 = r.choice(compose_fams)
+        picks = [f1, f1 if same else r.choice(compose_fams)] + ([r.choice(compose_fams)] if r.chance(0.4) else [])
+        texts = [genmodels.gen_model(r.sub("part", j), f)[1] for j, f in enumerate(picks)]
+        if same and r.chance(0.3):
+            texts[1] = texts[0]   # identical twins: identical initializers, identical sub-graphs
+        m = {"pool": "compose", "texts": texts}
+        for kind, params in (("rewrite", {"rules": "default", "api": "pass"}), ("optimize", {"api": "ir"}),
+                             ("rewrite", {"rules": "default_set", "api": "apply"}), ("optimize", {"api": "fold_pass"})):
+            add(with_id({"kind": kind, "model": m, "family": "gen:compose", **copy.deepcopy(params)}))
     # models "loaded with external data": for a seeded handful of families, one member's text twice more — once with its
     # initializers in <base_dir>/weights.bin and once with that file missing (loaded without its weights); same relative
     # location, different base_dir
